@@ -2,9 +2,11 @@ package sshmux
 
 import (
 	"os"
+	"runtime"
 	"sort"
 	"strconv"
 	"strings"
+	"sync"
 	"time"
 
 	"verif/mon"
@@ -28,10 +30,30 @@ func init() {
 	}
 }
 
+var hangMu sync.Mutex
+var hangsSeen int
+
+var dumpMu sync.Mutex
+var dumpBuf = make([]byte, 256<<10)
+
+// cheapDump is mon.GoroutineDump with a reused buffer (allocating 1 MiB per
+// poll is expensive under the race detector).
+func cheapDump() string {
+	dumpMu.Lock()
+	defer dumpMu.Unlock()
+	for {
+		n := runtime.Stack(dumpBuf, true)
+		if n < len(dumpBuf) {
+			return string(dumpBuf[:n])
+		}
+		dumpBuf = make([]byte, 2*len(dumpBuf))
+	}
+}
+
 // countParked returns how many goroutines are parked in state `state` with a
 // frame containing sub.
 func countParked(sub, state string) (int, string) {
-	dump := mon.GoroutineDump()
+	dump := cheapDump()
 	n := 0
 	for _, g := range mon.ParseDump(dump) {
 		if g.State == state && g.Has(sub) {
@@ -121,7 +143,15 @@ func awaitOrJudge(m *mon.M, keyPrefix string, done <-chan struct{}, extra func()
 // (e.g. the receiver consumed every byte but never returned the window).
 func awaitOrJudgeF(m *mon.M, keyPrefix string, done <-chan struct{}, extra func() map[string]any, owes func() string) bool {
 	for attempt := 0; attempt < 4; attempt++ {
-		t := time.NewTimer(watchdog)
+		look := watchdog
+		hangMu.Lock()
+		if hangsSeen > 0 && look > 5*time.Second {
+			// a frozen system was already diagnosed in this process: later
+			// stalls are looked at sooner (the verdict stays structural)
+			look = 5 * time.Second
+		}
+		hangMu.Unlock()
+		t := time.NewTimer(look)
 		select {
 		case <-done:
 			t.Stop()
@@ -144,6 +174,9 @@ func awaitOrJudgeF(m *mon.M, keyPrefix string, done <-chan struct{}, extra func(
 				det[k] = v
 			}
 		}
+		hangMu.Lock()
+		hangsSeen++
+		hangMu.Unlock()
 		owed := ""
 		if owes != nil {
 			owed = owes()
